@@ -94,10 +94,10 @@ def store_guards(an, sy, bb, stored=None, stored_term=None):
     for (d, rel, vals) in an.atoms_at(bb):
         ats += sy.atoms(d, rel, vals)
     nonempty = None
-    if stored_term is not None:
-        er = sy.emptiness_rel(stored_term, False)
-        if er:
-            nonempty = atom_str(er[0])
+    if stored:
+        ea = accept.emptiness_atom(stored, False)
+        if ea is not None:
+            nonempty = atom_str(ea)
     for a in (accept.simplify(ats, sy.sym_box) or []):
         s = atom_str(a)
         if _re.search(r"var<\[.*\]>\[", s) or (stored and stored in s):
